@@ -3,7 +3,7 @@
    quantified adversarial prover), for every prime p (with 2^(k+1) <= p where ranges matter).
    Status: the arithmetic cores below are proved for all widths and all primes, and they are LINKED to the model: the
    C02_model_* theorems are about the constraint lists that the model's gadgets really emit ([run]), for every assignment w
-   of the variables (w 0 = 1: the constant-one wire) satisfying them, outside guarded regions, for every bitlength
+   of the variables (w 0 = 1: the constant-one wire) satisfying them, outside guarded regions or inside regions whose guard wire evaluates to 1 under w, for every bitlength
    (Proofs/Adv.v: a predicate transformer over the generator monad, sound for [run]; Proofs/AdvGadgets.v).
    Not linked: the operator dispatch above the gadgets, guarded regions (there the constraints are v*w = y+d, g*d = 0: the
    core C07_true_guard_transparent), divmod and what is built on it (refuted below).  The witness-space search on the
@@ -94,7 +94,7 @@ Variable w : var -> Z.
 Hypothesis W0 : w 0 = 1.
 Variable c : cfg.
 Variable s : @Gadgets.gst p.
-Hypothesis G : guard s = None.
+Hypothesis G : AdvGadgets.Gok w s.     (* no active guard, or the active guard wire evaluates to 1 under w (a true guard is transparent) *)
 Notation "a == b" := (feq p a b) (at level 70).
 Notation ew := (AdvGadgets.ew w).
 Notation sat cs := (Forall (holds (p:=p) w) (cons_of cs)).
